@@ -302,10 +302,10 @@ def _client_sequence_cases(tier):
     """Sequences of client derivations (with_headers / with_cookies / with_timeout), context entry and calls on an authenticated
     client: every call carries the operation's arguments, the credential header and exactly the extras derived so far."""
     depth = 4 if tier == "quick" else 5
-    for first in CLIENT_ACTIONS:
+    for prefix in itertools.product(CLIENT_ACTIONS, repeat=1 if tier == "quick" else 2):
         for asynchronous in (False, True):
-            yield {"labels": ["client-sequence", f"first={first}", "asyncio" if asynchronous else "sync", f"depth={depth}"],
-                   "payload": {"mode": "client-sequence", "doc": _client_doc(), "first": first, "asynchronous": asynchronous, "depth": depth}}
+            yield {"labels": ["client-sequence", "prefix=" + ">".join(prefix), "asyncio" if asynchronous else "sync", f"depth={depth}"],
+                   "payload": {"mode": "client-sequence", "doc": _client_doc(), "prefix": list(prefix), "asynchronous": asynchronous, "depth": depth}}
 
 
 CP_VARIANTS = [("page-size", "query"), ("page_size", "query"), ("page-size", "header"), ("page_size", "cookie"), ("PageSize", "query"), ("pageSize", "header")]
@@ -709,8 +709,8 @@ def _run_client_sequence(p):
             if obs[:1] == ["raises"] or len(obs) != 1 or ("authorization", "Bearer tok3n") not in [tuple(h) for h in obs[0]["headers"]]:
                 return {"violations": [{"oracle": "auth-header", "site": "header", "key": "client-sequence/fresh", "detail": f"{a} on a fresh authenticated client: {obs!r}"}],
                         "outcome": "viol:auth-header", "nontrivial": True}
-        for rest in itertools.product(CLIENT_ACTIONS, repeat=p["depth"] - 1):
-            seq = (p["first"],) + rest
+        for rest in itertools.product(CLIENT_ACTIONS, repeat=p["depth"] - len(p["prefix"])):
+            seq = tuple(p["prefix"]) + rest
             if not any(a in calls for a in seq):
                 continue
             got = run(list(seq))
